@@ -1,6 +1,168 @@
-(* Props/C02.v — the property theorems of C02 and nothing else. *)
+(* Props/C02.v — the property theorems of C02 and nothing else.
+   C02: first disruptive match interrupts; the interruption is final; engine modes hold; each
+   phase is evaluated at most once whatever the order of calls.
+   [tp_run c ks] is the state after the arbitrary call list [ks]; [st_trace] is the history of
+   evaluations (EvPhase p = RuleGroup.Eval entered, EvRule p r st = Rule.Evaluate, EvLimit =
+   body-limit rejection). *)
 From Verif Require Import Base TxPhase TxPhaseProofs.
+Open Scope N_scope.
 
-Theorem C02_interrupt_keeps : forall s i j, st_intr s = Some i -> st_intr (tp_interrupt s j) = Some i.
-Proof. exact interrupt_keeps. Qed.
-Print Assumptions C02_interrupt_keeps.
+(* ---- first disruptive match interrupts ---- *)
+
+(* for every configuration and every call list: the recorded interruption is the one of the first
+   event of the history that interrupts under engine On (a rule that fired with deny / drop /
+   redirect while the engine was On, or a body-limit rejection) *)
+Theorem C02_first_disruptive : forall c ks,
+  st_intr (tp_run c ks) = tp_first_intr MOn (st_trace (tp_run c ks)).
+Proof. exact first_disruptive_holds. Qed.
+Print Assumptions C02_first_disruptive.
+
+(* the remembered would-be interruption is the first rule that fired with deny / drop / redirect
+   while the engine was DetectionOnly *)
+Theorem C02_would_be_first : forall c ks,
+  st_dintr (tp_run c ks) = tp_first_intr MDet (st_trace (tp_run c ks)).
+Proof. exact would_be_first_holds. Qed.
+Print Assumptions C02_would_be_first.
+
+(* one phase, read declaratively (rule sets without ctl:ruleEngine and allow, engine On): the
+   interruption is the one of the first rule of that phase in configuration order whose condition
+   and chain hold and whose action is deny / drop / redirect; exactly the rules of the phase up to
+   and including it are evaluated (all of them in the logging phase) *)
+Theorem C02_phase_first_disruptive : forall c p s,
+  tp_plain c = true -> st_engine s = MOn -> st_allow s = None -> st_intr s = None ->
+  let s' := tp_eval_phase c p s in
+  st_intr s' = tp_spec_first s p (c_rules c) /\
+  st_trace s' = st_trace s ++ EvPhase p ::
+     map (fun r => EvRule p r (tp_plain_stat s r)) (tp_spec_evaluated s p false (c_rules c)).
+Proof. exact phase_first_disruptive_holds. Qed.
+Print Assumptions C02_phase_first_disruptive.
+
+(* id, action, status and target of the interruption a rule builds: deny 403 unless status:N,
+   drop with the rule's status, redirect 302 unless the status is 301/302/303/307 *)
+Theorem C02_status_mapping : forall r i,
+  tp_intr_of r = Some i ->
+  i_rule i = r_id r /\
+  match i_kind i with
+  | KDeny => r_act r = Some DDeny /\ i_data i = [] /\
+             (r_status r = 0 -> i_status i = 403) /\ (r_status r <> 0 -> i_status i = r_status r)
+  | KDrop => r_act r = Some DDrop /\ i_data i = [] /\ i_status i = r_status r
+  | KRedirect => r_act r = Some (DRedirect (i_data i)) /\ In (i_status i) tp_redirect_codes /\
+                 (In (r_status r) tp_redirect_codes -> i_status i = r_status r) /\
+                 (~ In (r_status r) tp_redirect_codes -> i_status i = 302)
+  end.
+Proof. exact status_mapping_holds. Qed.
+Print Assumptions C02_status_mapping.
+
+(* pass, block (not inherited), allow and rules without disruptive action never interrupt *)
+Theorem C02_only_three_interrupt : forall r,
+  tp_intr_of r = None <->
+  match r_act r with Some DDeny | Some DDrop | Some (DRedirect _) => False | _ => True end.
+Proof. exact only_three_interrupt. Qed.
+Print Assumptions C02_only_three_interrupt.
+
+(* parser: the last disruptive action of a list wins; block (or no disruptive action) inherits the
+   SecDefaultAction of the rule's phase together with its status *)
+Theorem C02_last_disruptive_wins : forall ds r a,
+  tp_last_dact (rr_dacts r) = Some a -> tp_is_block a = false -> r_act (tp_compile_rule ds r) = Some a.
+Proof. exact compile_keeps_own. Qed.
+Print Assumptions C02_last_disruptive_wins.
+
+Theorem C02_block_inherits_default : forall ds r d,
+  (tp_last_dact (rr_dacts r) = Some DBlock \/ tp_last_dact (rr_dacts r) = None) ->
+  tp_defaults_for ds (rr_phase r) = Some d ->
+  r_act (tp_compile_rule ds r) = tp_last_dact (df_dacts d) /\
+  r_status (tp_compile_rule ds r) =
+    match rr_status r with Some n => n | None => match df_status d with Some n => n | None => 0 end end.
+Proof. exact compile_block_inherits. Qed.
+Print Assumptions C02_block_inherits_default.
+
+(* ---- the interruption is final ---- *)
+
+(* any state (reachable or not), any call: a recorded interruption is never replaced or cleared *)
+Theorem C02_interruption_final : forall c s k i,
+  st_intr s = Some i -> st_intr (fst (tp_step c s k)) = Some i.
+Proof. exact interruption_final_step. Qed.
+Print Assumptions C02_interruption_final.
+
+Theorem C02_interruption_final_run : forall c ks ks' i,
+  st_intr (tp_run c ks) = Some i -> st_intr (tp_run c (ks ++ ks')) = Some i.
+Proof. exact interruption_final_run. Qed.
+Print Assumptions C02_interruption_final_run.
+
+(* every later phase call reports that same interruption (engine not switched Off meanwhile) *)
+Theorem C02_interruption_reported : forall c s k i,
+  st_intr s = Some i -> is_off s = false -> tp_is_phase_call k = true ->
+  snd (tp_step c s k) = RI (Some i).
+Proof. exact interruption_reported. Qed.
+Print Assumptions C02_interruption_reported.
+
+(* no call ever returns an interruption other than the recorded one *)
+Theorem C02_returned_is_recorded : forall c s k,
+  tp_ret_intr (snd (tp_step c s k)) = None \/
+  tp_ret_intr (snd (tp_step c s k)) = st_intr (fst (tp_step c s k)).
+Proof. exact step_ret. Qed.
+Print Assumptions C02_returned_is_recorded.
+
+(* ---- afterwards only logging-phase rules run ---- *)
+
+(* for every call list: whatever follows the first interrupting event in the history is a
+   logging-phase evaluation (or a body-limit notice); no Eval and no rule of phases 1-4 *)
+Theorem C02_no_eval_after_interrupt : forall c ks t1 t2,
+  st_trace (tp_run c ks) = t1 ++ t2 -> tp_first_intr MOn t1 <> None ->
+  Forall (fun e => tp_late_ok e = true) t2.
+Proof. exact no_eval_after_interrupt_holds. Qed.
+Print Assumptions C02_no_eval_after_interrupt.
+
+(* ---- DetectionOnly ---- *)
+
+(* a WAF configured DetectionOnly whose rules never switch the engine to On: no call of any call
+   list returns an interruption and none is recorded (waf.go forces ProcessPartial) *)
+Theorem C02_detection_only : forall w ks,
+  w_engine w = MDet -> tp_no_ctl_on (tp_compile w) = true ->
+  st_intr (tp_run (tp_compile w) ks) = None /\
+  Forall (fun r => tp_ret_intr r = None) (tp_rets (tp_compile w) (tp_init (tp_compile w)) ks).
+Proof. exact detection_only_holds. Qed.
+Print Assumptions C02_detection_only.
+
+(* DetectionOnly reached in any way (also by ctl:ruleEngine), guard: the call is not a body write
+   whose limit action is Reject *)
+Theorem C02_detection_only_partial : forall c s k,
+  tp_no_ctl_on c = true -> tp_call_cannot_reject c k = true ->
+  st_engine s = MDet -> st_intr s = None ->
+  st_intr (fst (tp_step c s k)) = None /\ tp_ret_intr (snd (tp_step c s k)) = None /\
+  st_engine (fst (tp_step c s k)) <> MOn.
+Proof. exact detection_only_partial_holds. Qed.
+Print Assumptions C02_detection_only_partial.
+
+(* without the guard the statement is false (finding F12, c02-reject-in-detectiononly-via-ctl) *)
+Theorem C02_detection_only_refuted :
+  exists w ks k,
+    let c := tp_compile w in
+    let s := tp_run c ks in
+    tp_no_ctl_on c = true /\ st_engine s = MDet /\ st_intr s = None /\
+    st_intr (fst (tp_step c s k)) <> None /\ tp_ret_intr (snd (tp_step c s k)) <> None.
+Proof. exact detection_only_refuted_holds. Qed.
+Print Assumptions C02_detection_only_refuted.
+
+(* ---- engine Off ---- *)
+
+Theorem C02_engine_off : forall c s k,
+  st_engine s = MOff ->
+  let s' := fst (tp_step c s k) in
+  st_trace s' = st_trace s /\ st_intr s' = st_intr s /\ st_dintr s' = st_dintr s /\
+  st_engine s' = MOff /\ st_last s' = st_last s /\ tp_ret_intr (snd (tp_step c s k)) = None.
+Proof. exact engine_off_step. Qed.
+Print Assumptions C02_engine_off.
+
+Theorem C02_engine_off_run : forall c ks,
+  c_engine c = MOff ->
+  st_trace (tp_run c ks) = [] /\ st_intr (tp_run c ks) = None /\ st_dintr (tp_run c ks) = None.
+Proof. exact engine_off_run. Qed.
+Print Assumptions C02_engine_off_run.
+
+(* ---- each request / response phase at most once, for EVERY order of calls ---- *)
+
+Theorem C02_phase_at_most_once : forall c ks p,
+  1 <= p <= 4 -> (tp_count_phase p (st_trace (tp_run c ks)) <= 1)%nat.
+Proof. exact phase_at_most_once_holds. Qed.
+Print Assumptions C02_phase_at_most_once.
